@@ -27,6 +27,15 @@ pub struct EnetCase {
     pub l1_ratio: f64,
     pub intercept: bool,
     pub tol: f64,
+    /// construction path: 0 = `ElasticNet::params()` / `MultiTaskElasticNet::params()`, 1 = `ElasticNetParams::new()`
+    /// (resp. the multi-task alias), 2 = `..Params::default()`, 3 = the preset `lasso()` / `ridge()` when
+    /// l1_ratio is 1 / 0 (then l1_ratio is not set explicitly; otherwise like 0)
+    #[serde(default)]
+    pub ctor: u8,
+    /// leave every option whose value equals the documented default (penalty 1.0, l1_ratio 0.5,
+    /// with_intercept true, tolerance 1e-4) unset instead of setting it explicitly
+    #[serde(default)]
+    pub leave_defaults: bool,
     /// `max_iterations` of the fit (tier-dependent fixed work: 10 000 quick, 100 000 thorough)
     #[serde(default = "default_max_iter")]
     pub max_iter: u32,
@@ -43,6 +52,12 @@ pub struct OlsCase {
     pub x: Mat,
     pub y: Vec<f64>,
     pub intercept: bool,
+    /// construction path: 0 = `LinearRegression::new()`, 1 = `LinearRegression::default()`
+    #[serde(default)]
+    pub ctor: u8,
+    /// when the intercept option equals its documented default (on), do not call `with_intercept`
+    #[serde(default)]
+    pub leave_defaults: bool,
     pub f32: bool,
     pub pert_seed: u64,
 }
@@ -304,8 +319,8 @@ pub fn enet_strategy(flavor: Flavor, max_iter: u32) -> impl Strategy<Value = Ene
     } else {
         prop_oneof![Just(1e-4), Just(1e-8), Just(1e-12)].boxed()
     };
-    (raw(flavor), penalty_s(), l1_s(), any::<bool>(), tol, any::<u64>(), any::<bool>()).prop_map(
-        move |(r, penalty, l1_ratio, intercept, tol, pert_seed, multi32)| {
+    (raw(flavor), penalty_s(), l1_s(), any::<bool>(), tol, any::<u64>(), any::<bool>(), 0u8..4, any::<bool>()).prop_map(
+        move |(r, penalty, l1_ratio, intercept, tol, pert_seed, multi32, ctor, leave_defaults)| {
             let ridge_part = penalty * (1.0 - l1_ratio) > 0.0;
             let (x, y) = build(&r, flavor, ridge_part, true);
             EnetCase {
@@ -317,6 +332,8 @@ pub fn enet_strategy(flavor: Flavor, max_iter: u32) -> impl Strategy<Value = Ene
                 l1_ratio,
                 intercept,
                 tol,
+                ctor,
+                leave_defaults,
                 max_iter,
                 pert_seed,
             }
@@ -325,12 +342,12 @@ pub fn enet_strategy(flavor: Flavor, max_iter: u32) -> impl Strategy<Value = Ene
 }
 
 pub fn ols_strategy() -> impl Strategy<Value = OlsCase> {
-    (prop::bool::weighted(0.25), any::<bool>(), any::<u64>())
-        .prop_flat_map(|(f32, intercept, pert_seed)| {
+    (prop::bool::weighted(0.25), any::<bool>(), any::<u64>(), 0u8..2, any::<bool>())
+        .prop_flat_map(|(f32, intercept, pert_seed, ctor, leave_defaults)| {
             let flavor = if f32 { Flavor::F32 } else { Flavor::Ols };
             raw(flavor).prop_map(move |r| {
                 let (x, y) = build(&r, flavor, false, false);
-                OlsCase { x, y: y.iter().map(|row| row[0]).collect(), intercept, f32, pert_seed }
+                OlsCase { x, y: y.iter().map(|row| row[0]).collect(), intercept, ctor, leave_defaults, f32, pert_seed }
             })
         })
 }
